@@ -224,7 +224,9 @@ class G:
             if cands:
                 v = r.choice(cands)
                 self.note("restore-reload")
-                return ("seq", [("op", "PopU", [("load", v)]), ("store", v, self.expr(U, d - 1)), ("op", "PopU", [("load", v)])])
+                # the earlier read sits in an EARLIER block: a conditional between it and the pair starts a new block at the join
+                join = ("if", ("op", "Gt", [("txn", "Fee"), ("int", r.choice([0, 5, 1000]))]), ("op", "PopU", [("int", r.randrange(9))]), None)
+                return ("seq", [("op", "PopU", [("load", v)]), join, ("store", v, self.expr(U, d - 1)), ("op", "PopU", [("load", v)])])
         if c < 0.3:
             ty = r.choice([U, B])
             self.note("pop")
